@@ -229,6 +229,56 @@ INTERLEAVED = [
 ]
 
 
+def fam_same_operands():
+    """two different operators over the same operand list under a third one: the shapes on which
+    an algebraic identity for binary operators is wrongly applied to n-ary ones"""
+    out = []
+    V = ["a", "b", "c", "d"]
+    for n in (2, 3, 4):
+        ops = V[:n]
+        variants = [ops, [["not", ops[0]]] + ops[1:], ops[:-1] + [["and", ops[-1], "e"]]]
+        for args in variants:
+            inner = {"and": ["and"] + args, "or": ["or"] + args, "xor": ["xor"] + args}
+            for o1, o2 in itertools.permutations(inner, 2):
+                for outer in ("or", "and", "xor"):
+                    for neg in (0, 1, 2):
+                        x, y = inner[o1], inner[o2]
+                        if neg == 1:
+                            y = ["not", y]
+                        elif neg == 2:
+                            x = ["not", x]
+                        out.append([outer, x, y])
+                        out.append(["xor", "e", [outer, x, y]])
+    return out
+
+
+def fam_demorgan_pairs():
+    """operands that differ only by the spelling of a wide Or/And (plain vs its De Morgan dual):
+    a rewrite that normalises them meets Or(X, X) / And(X, X) collapsing to X"""
+    out = []
+    wides = [(["or", "p", "q", "r"], ["not", ["and", ["not", "p"], ["not", "q"], ["not", "r"]]]), (["and", "p", "q", "r"], ["not", ["or", ["not", "p"], ["not", "q"], ["not", "r"]]]), (["or", "p", "q"], ["not", ["and", ["not", "p"], ["not", "q"]]])]
+    ctxs = [lambda w: w, lambda w: ["and", "x", w], lambda w: ["and", "x", "y", w], lambda w: ["or", "x", w], lambda w: ["xor", "x", "y", w], lambda w: ["and", "x", ["not", w]]]
+    for w1, w2 in wides:
+        for cx in ctxs:
+            for outer in ("or", "and", "xor"):
+                out.append([outer, cx(w1), cx(w2)])
+                out.append([outer, cx(w2), cx(w1)])
+                out.append(["or", "z", [outer, cx(w1), cx(w2)]])
+    return out
+
+
+def fam_ret_first():
+    """lists that start with a return bit and define (and re-assign) intermediates later, with
+    sub-expressions shared between the return bits that mention the intermediate"""
+    out = []
+    for g1, g2 in ((["xor", "c", "d"], ["and", "c", "d"]), (["or", "a", "c"], ["not", "c"]), (["and", "c", ["not", "d"]], ["xor", "a", "d"])):
+        for sh in (["and", "t", "a"], ["xor", "t", "b"], ["or", "t", ["and", "a", "b"]]):
+            out.append([["_ret.0", ["and", "a", "b"]], ["t", g1], ["_ret.1", ["or", sh, "b"]], ["_ret.2", ["xor", sh, "b"]]])
+            out.append([["_ret.0", ["and", "a", "b"]], ["t", g1], ["_ret.1", ["or", sh, "b"]], ["t", g2], ["_ret.2", ["xor", sh, "b"]]])
+            out.append([["_ret.0", sh if "t" not in str(sh) else ["or", "a", "b"]], ["t", g1], ["u", ["and", "t", "d"]], ["_ret.1", ["or", sh, "u"]], ["t", g2], ["_ret.2", ["and", sh, "u"]]])
+    return out
+
+
 def make_items(tier, seed):
     rnd = random.Random(77)
     core, rest = [], []
@@ -238,6 +288,20 @@ def make_items(tier, seed):
         core.append({"kind": "synth", "fam": "interleaved", "list": lst})
     for t in fam_compound_xnor():
         core.append({"kind": "synth", "fam": "compound-xnor", "list": [["_ret", t]]})
+    so = fam_same_operands()
+    for t in so[::4]:
+        core.append({"kind": "synth", "fam": "same-operands", "list": [["_ret", t]]})
+    for t in so:
+        rest.append({"kind": "synth", "fam": "same-operands", "list": [["_ret", t]]})
+    dm = fam_demorgan_pairs()
+    for t in dm[::2]:
+        core.append({"kind": "synth", "fam": "demorgan-pairs", "list": [["_ret", t]]})
+    for t in dm:
+        rest.append({"kind": "synth", "fam": "demorgan-pairs", "list": [["_ret", t]]})
+    for i, t in enumerate(dm[::5]):
+        rest.append({"kind": "synth", "fam": "demorgan-pairs", "list": [["t0", t], ["_ret.0", ["xor", "t0", "z"]], ["_ret.1", ["and", "t0", "x"]]]})
+    for lst in fam_ret_first():
+        core.append({"kind": "synth", "fam": "ret-first", "list": lst})
     for src in BIG_INTERMEDIATE:
         core.append({"kind": "prog", "fam": "big-intermediate", "src": src})
     core.append({"kind": "prog", "fam": "many-rets", "src": "def prog(a: Qint[4], b: Qint[4], c: Qint[4]) -> Tuple[Qint[4], Qint[4], Qint[4], Qint[4], Qint[4]]:\n    return (a + b, b + c, a + c, a + b + c, (a + b) ^ c)\n"})
